@@ -90,7 +90,14 @@ def runUnaryOp (op : String) (_attrs : Json) (ins : List (Option DT)) : Answer :
   | _, _ => { model := { status := "unmodelled" } }
 
 /-- Go's numeric conversion between the ten numeric element types, on exact integer values -/
-def convInt (_src tgt : DType) (v : Int) : Int := if isFloat tgt then v else wrap tgt v
+def convInt (_src tgt : DType) (v : Int) : Int := Gonnx.convTo tgt v
+
+/-- is every value of a float tensor (carried as exact integers) representable in its type? -/
+def floatRepresentable (d : DT) : Bool :=
+  match d.dt with
+  | .f32 => d.t.data.all fun v => roundSig 24 v == v
+  | .f64 => d.t.data.all fun v => roundSig 53 v == v
+  | _ => true
 
 def isConstOp (op : String) : Bool := op == "Cast" || op == "ConstantOfShape" || op == "Constant"
 
@@ -135,11 +142,17 @@ def runConstOp (op : String) (attrs : Json) (ins : List (Option DT)) : Answer :=
         let spec : SpecOut := match castTarget to with
           | none => { domain := "mustRefuse" }
           | some tgt =>
-            -- in-range values only are specified: the value must be representable in the target
+            -- integer targets: in-range values only are specified (the value must be representable in the
+            -- target); float targets: every integer is converted, rounded to the significand (ties to even)
             if X.t.data.all (fun v => convInt X.dt tgt v == v) then
               { domain := "must", outs := some [some (DT.mk tgt ⟨X.t.shape, X.t.data⟩ none)] }
+            else if isFloat tgt then
+              { domain := "must", outs := some [some (DT.mk tgt ⟨X.t.shape, X.t.data.map (convInt X.dt tgt)⟩ none)] }
             else { domain := "unspecified" }
-        { model := model.checkExact, spec, tags := [dtToString X.dt ++ "->" ++ toString to],
+        -- the values of a float SOURCE must be the ones the tensor really holds
+        let model := if !floatRepresentable X then { status := "inexact" } else model
+        { model := (if (castTarget to).any isFloat then model else model.checkExact), spec := (if !floatRepresentable X then { domain := "unspecified" } else spec),
+          tags := [dtToString X.dt ++ "->" ++ toString to] ++ (if (castTarget to).any isFloat && X.t.data.any (fun v => convInt X.dt ((castTarget to).getD .f64) v != v) then ["int-float-rounded"] else []),
           guard := if X.t.rank == 0 && scalarToSliceMissing X.dt then ["cast.scalar_unsigned_source"] else [] })
   | "ConstantOfShape", [some S] =>
     let names := attrNames attrs
@@ -185,12 +198,16 @@ def runConstOp (op : String) (attrs : Json) (ins : List (Option DT)) : Answer :=
         | some v => mk (DT.mk .f32 ⟨[], [v]⟩ none)
         | none => match a.getObjVal? "f" with
           | .error _ => mk (DT.mk .f32 ⟨[], [0]⟩ none)
+          | .ok (.num n) => mk (DT.ofFloat .f32 ⟨[], [r32 n.toFloat]⟩)     -- a fraction: float carrier
           | _ => { model := { status := "unmodelled" } })
       | "value_int" => mk (DT.mk .i64 ⟨[], [getInt a "i" 0]⟩ none)
       | "value_floats" =>
         (match (getArr a "floats").toList.mapM parseElem with
         | some l => if l.isEmpty then { model := { status := "unmodelled" }, spec := { domain := "unspecified" }, tags := ["empty-list"] } else mk (DT.mk .f32 ⟨[l.length], l⟩ none)
-        | none => { model := { status := "unmodelled" } })
+        | none =>
+          match (getArr a "floats").toList.mapM (fun v => match v with | .num n => some (r32 n.toFloat) | _ => none) with
+          | some fl => mk (DT.ofFloat .f32 ⟨[fl.length], fl⟩)
+          | none => { model := { status := "unmodelled" } })
       | "value_ints" =>
         let l := jsonInts (getArr a "ints")
         if l.isEmpty then { model := { status := "unmodelled" }, spec := { domain := "unspecified" }, tags := ["empty-list"] } else mk (DT.mk .i64 ⟨[l.length], l⟩ none)
